@@ -6,6 +6,8 @@ import RbV.Model.PairwiseCustom
 import RbV.Model.PairwiseFill
 import RbV.Lemmas.FillFinal
 import RbV.Lemmas.FillAccept
+import RbV.Model.PairwiseFillI32
+import RbV.Lemmas.FillI32
 import RbV.Thm.GenLimits
 import RbV.Thm.GenTbCodes
 /-!
@@ -234,6 +236,140 @@ example : (Model.PairwiseFill.fill scU' ⟨minScore, minScore, minScore, minScor
   decide +kernel
 -- `Sane` is a real restriction: sequences so long that the worst global alignment falls below `MIN_SCORE` are outside
 example : ¬ Model.PairwiseFill.Sane ⟨fun _ _ => 0, minScore, 0⟩ [0] [0] 0 := by decide +kernel
+
+/-! ### `i32`: the fixed-width arithmetic of `Aligner::custom` (`RbV/Model/PairwiseFillI32.lean`)
+
+The Rust code computes every score in `i32`; the harness is built with `overflow-checks`, so an overflow is a panic.
+`Model.PairwiseFill.fillC` / `customC` are the mirror with **every `+` and `*` of the Rust text checked** (`I32.add`,
+`I32.mul`: `none` outside `[−2³¹, 2³¹)`; `i as i32` = truncating cast), in the order and association of the text.
+
+* `custom_i32_no_overflow`: inside the parametric envelope `I32Env sc cl x y B` — `B ≥ 1` bounds `|w|` on the symbol pairs
+  that occur and `|gap_open|`, `|gap_extend|`; gap and clip penalties `≤ 0`; clip penalties `≥ MIN_SCORE` (anything in
+  between); `(max(m, n, 2) + 1)·B ≤ 2³¹ + MIN_SCORE` (exact for `max(m, n) ≥ 2`) — **no checked operation fails and the checked mirror returns exactly
+  what the unbounded mirror returns**.  Proof (`Lemmas/FillI32Step.lean`, `FillI32.lean`): every `S`, `Sn`, `S[curr][m]`
+  of row `i` lies in `[MIN_SCORE, i·B]`, every `I`, `D` in `[MIN_SCORE − 2B, i·B]` (induction over columns and rows), so
+  every intermediate sum lies in `[2·MIN_SCORE, (i+1)·B]` or above `MIN_SCORE − (max(m,n) + 1)·B`; `2·MIN_SCORE ≥ −2³¹`
+  is the promise of the constant's doc comment (`two_min_scores_no_i32_overflow`).
+* with `Sane` in addition, the `i32` computation is optimal and accepted (`fill_i32_score_eq_opt`, `custom_i32_accepted`);
+* one parametric envelope implies both: `AlignEnv sc cl x y B` — the same bounds with `2·(m + n + 1)·B < −MIN_SCORE`
+  (`alignEnv_i32Env`, `alignEnv_sane`, `custom_i32_correct`).  The former fixed envelope (|scores| ≤ 1024, lengths ≤ 64)
+  is an instance (`fixed_envelope_is_instance`); harness and generator now use `AlignEnv` itself.
+* outside: `decide`d examples below — an overflow (`Outcome.overflow`), and the limit of "`MIN_SCORE` = −∞": a *legitimate*
+  optimum below `MIN_SCORE` is not found (the traceback does not even terminate: `Outcome.noTermination`). -/
+
+/-- **No `i32` overflow inside the envelope; the checked mirror is the unbounded mirror.** -/
+theorem custom_i32_no_overflow (sc : Sc) (cl : Clip) (x y : List Nat) (B : Int)
+    (henv : Model.PairwiseFill.I32Env sc cl x y B) :
+    Model.PairwiseFill.fillC sc cl x y = some (Model.PairwiseFill.fill sc cl x y) ∧
+      Model.PairwiseFill.customC sc cl x y =
+        (match Model.PairwiseFill.custom sc cl x y with
+         | none => .noTermination
+         | some o => .done o) :=
+  ⟨Model.PairwiseFill.fillC_eq henv, Model.PairwiseFill.customC_eq henv⟩
+
+/-- the score the `i32` fill leaves in `S[n % 2][m]` is the optimum (`I32Env` for the arithmetic, `Sane` for the sentinel) -/
+theorem fill_i32_score_eq_opt (sc : Sc) (cl : Clip) (x y : List Nat) (B W : Int)
+    (henv : Model.PairwiseFill.I32Env sc cl x y B) (hsane : Model.PairwiseFill.Sane sc x y W) :
+    ∃ f, Model.PairwiseFill.fillC sc cl x y = some f ∧ f.score = opt sc cl x y :=
+  ⟨_, Model.PairwiseFill.fillC_eq henv,
+    fill_score_eq_opt sc cl x y W henv.go.2 henv.ge.2 ⟨henv.xp.2, henv.xs.2, henv.yp.2, henv.ys.2⟩ hsane⟩
+
+/-- **the whole of `Aligner::custom`, computed in `i32`, is accepted**: no overflow, the traceback terminates, the
+reported alignment passes `accept` -/
+theorem custom_i32_accepted (sc : Sc) (cl : Clip) (x y : List Nat) (B W : Int)
+    (henv : Model.PairwiseFill.I32Env sc cl x y B) (hsane : Model.PairwiseFill.Sane sc x y W) :
+    ∃ o, Model.PairwiseFill.customC sc cl x y = .done o ∧ accept sc cl false x y o = true := by
+  obtain ⟨o, ho, ha⟩ := custom_model_accepted sc cl x y W henv.go.2 henv.ge.2
+    ⟨henv.xp.2, henv.xs.2, henv.yp.2, henv.ys.2⟩ hsane
+  refine ⟨o, ?_, ha⟩
+  rw [Model.PairwiseFill.customC_eq henv, ho]
+
+/-- the parametric envelope implies the no-overflow envelope … -/
+theorem alignEnv_i32Env (sc : Sc) (cl : Clip) (x y : List Nat) (B : Int)
+    (h : Model.PairwiseFill.AlignEnv sc cl x y B) : Model.PairwiseFill.I32Env sc cl x y B := by
+  obtain ⟨hB, h1, h2, h3, h4, h5, h6, h7, h8, hr⟩ := h
+  refine ⟨hB, h1, h2, h3, h4, h5, h6, h7, h8, ?_⟩
+  have hms := Model.PairwiseFill.minScore_i32
+  -- `m = n = 0`: `2·B < −MIN_SCORE` gives `3·B ≤ 2³¹ + MIN_SCORE` because `−5·MIN_SCORE ≤ 2³² + 3` (the constant is ⌈−0.4·2³¹⌉)
+  have h5m : -5 * minScore ≤ 4294967299 := by decide
+  by_cases h0 : x.length + y.length = 0
+  · have e1 : ((max (max x.length y.length) 2 : Nat) : Int) = 2 := by
+      have : max (max x.length y.length) 2 = 2 := by omega
+      rw [this]; rfl
+    have e2 : ((x.length : Int) + y.length + 1) = 1 := by omega
+    rw [e1]; rw [e2, Int.one_mul] at hr
+    omega
+  · have hle : (((max (max x.length y.length) 2 : Nat) : Int) + 1) * B ≤ 2 * (((x.length : Int) + y.length + 1) * B) := by
+      have e : 2 * (((x.length : Int) + y.length + 1) * B) = (2 * ((x.length : Int) + y.length + 1)) * B := by
+        rw [Int.mul_assoc]
+      rw [e]
+      exact Int.mul_le_mul_of_nonneg_right (by omega) (by omega)
+    omega
+
+/-- … and `Sane` with `W = B` -/
+theorem alignEnv_sane (sc : Sc) (cl : Clip) (x y : List Nat) (B : Int)
+    (h : Model.PairwiseFill.AlignEnv sc cl x y B) : Model.PairwiseFill.Sane sc x y B := by
+  obtain ⟨hB, h1, h2, h3, h4, h5, h6, h7, h8, hr⟩ := h
+  refine ⟨by omega, h2, ?_⟩
+  have h9 : -B * ((x.length : Int) + y.length) ≤ sc.ge * ((x.length : Int) + y.length) :=
+    Int.mul_le_mul_of_nonneg_right h4.1 (by omega)
+  have e1 : -B * ((x.length : Int) + y.length) = -(((x.length : Int) + y.length) * B) := by
+    rw [Int.neg_mul, Int.mul_comm]
+  have e2 : ((x.length : Int) + y.length + 1) * B = ((x.length : Int) + y.length) * B + B := by
+    rw [Int.add_mul, Int.one_mul]
+  omega
+
+/-- **C01 for the `i32` computation, one envelope**: for all sequences, substitution functions, gap and clip penalties
+with `AlignEnv sc cl x y B` for some `B`, the checked-`i32` mirror of `Aligner::custom` does not overflow, terminates, and
+reports a real alignment of the reported sub-ranges that obeys the clip rule, whose recomputed score equals the
+reported score, which is optimal. -/
+theorem custom_i32_correct (sc : Sc) (cl : Clip) (x y : List Nat) (B : Int)
+    (h : Model.PairwiseFill.AlignEnv sc cl x y B) :
+    ∃ o, Model.PairwiseFill.customC sc cl x y = .done o ∧ IsAln x y o.toAln ∧ ClipRule false x y o ∧
+      AlnScore sc cl x y o.toAln o.score ∧ Optimal sc cl x y o.score := by
+  obtain ⟨o, ho, ha⟩ := custom_i32_accepted sc cl x y B B (alignEnv_i32Env sc cl x y B h) (alignEnv_sane sc cl x y B h)
+  exact ⟨o, ho, (C01_accept_iff sc cl false x y o).mp ha⟩
+
+/-- the fixed envelope of sessions 1–3 (|substitution scores|, |gap penalties| ≤ 1024, clip penalties in
+`{MIN_SCORE} ∪ [−1024, 0]`, lengths ≤ 64) is an instance of `AlignEnv` with `B = 1024` -/
+theorem fixed_envelope_is_instance (sc : Sc) (cl : Clip) (x y : List Nat)
+    (hw : ∀ a ∈ x, ∀ b ∈ y, -1024 ≤ sc.w a b ∧ sc.w a b ≤ 1024)
+    (hgo : -1024 ≤ sc.go ∧ sc.go ≤ 0) (hge : -1024 ≤ sc.ge ∧ sc.ge ≤ 0)
+    (hxp : cl.xp = minScore ∨ (-1024 ≤ cl.xp ∧ cl.xp ≤ 0)) (hxs : cl.xs = minScore ∨ (-1024 ≤ cl.xs ∧ cl.xs ≤ 0))
+    (hyp : cl.yp = minScore ∨ (-1024 ≤ cl.yp ∧ cl.yp ≤ 0)) (hys : cl.ys = minScore ∨ (-1024 ≤ cl.ys ∧ cl.ys ≤ 0))
+    (hm : x.length ≤ 64) (hn : y.length ≤ 64) : Model.PairwiseFill.AlignEnv sc cl x y 1024 := by
+  have hms := Model.PairwiseFill.minScore_i32
+  have hlo : minScore ≤ -1024 ∧ 2 * ((64 + 64 + 1) * 1024) < -minScore := by decide
+  refine ⟨by omega, fun a ha b hb => (hw a ha b hb).1, fun a ha b hb => (hw a ha b hb).2, hgo, hge,
+    by omega, by omega, by omega, by omega, by omega⟩
+
+-- non-vacuity: a call with scores of magnitude 5·10⁷ (clips −1 / −2 / `MIN_SCORE`) lies in the envelope; the theorem
+-- applies; the `i32` mirror's whole output; an envelope-edge instance of `I32Env` alone (B = 2·10⁸, lengths 4 and 2)
+def scBig : Sc := ⟨fun a b => if a = b then 50000000 else -50000000, -50000000, -30000000⟩
+example : Model.PairwiseFill.AlignEnv scBig ⟨-1, -2, minScore, minScore⟩ [0, 1, 1, 0] [1, 1] 50000000 := by decide
+example : ∃ o, Model.PairwiseFill.customC scBig ⟨-1, -2, minScore, minScore⟩ [0, 1, 1, 0] [1, 1] = .done o ∧
+    Optimal scBig ⟨-1, -2, minScore, minScore⟩ [0, 1, 1, 0] [1, 1] o.score := by
+  obtain ⟨o, h1, _, _, _, h2⟩ := custom_i32_correct scBig ⟨-1, -2, minScore, minScore⟩ [0, 1, 1, 0] [1, 1] 50000000 (by decide)
+  exact ⟨o, h1, h2⟩
+example : Model.PairwiseFill.customC scBig ⟨-1, -2, minScore, minScore⟩ [0, 1, 1, 0] [1, 1] =
+    .done ⟨99999997, 1, 3, 0, 2, 4, 2, [.xclip 1, .core .mat, .core .mat, .xclip 1]⟩ := by decide +kernel
+example : Model.PairwiseFill.I32Env ⟨fun a b => if a = b then 200000000 else -200000000, -200000000, -200000000⟩
+    ⟨minScore, -7, minScore, 0⟩ [0, 1, 1, 0] [1, 1] 200000000 := by decide
+
+-- outside the envelope, (a) overflow: two matches of 2·10⁹ each (m = n = 2) leave `i32`
+example : Model.PairwiseFill.customC ⟨fun _ _ => 2000000000, -5, -1⟩ ⟨minScore, minScore, minScore, minScore⟩
+    [0, 0] [0, 0] = .overflow := by decide +kernel
+-- (b) the limit of "`MIN_SCORE` is minus infinity" (`Sane` fails, nothing overflows): global alignment of A with A,
+-- match −9·10⁸, gap_open −5·10⁸.  The optimum of the documented model is −900 000 000 (one match; the only other
+-- alignment, insert + delete, scores −10⁹) and lies below `MIN_SCORE`: the `i32` fill succeeds but reports the sentinel,
+-- and the traceback finds the untouched default code `TB_XCLIP_SUFFIX` with `Lx = 0` and never stops
+example : opt ⟨fun _ _ => -900000000, -500000000, 0⟩ ⟨minScore, minScore, minScore, minScore⟩ [0] [0] = -900000000 := by
+  decide +kernel
+example : (Model.PairwiseFill.fillC ⟨fun _ _ => -900000000, -500000000, 0⟩ ⟨minScore, minScore, minScore, minScore⟩
+    [0] [0]).map (·.score) = some minScore := by decide +kernel
+example : Model.PairwiseFill.customC ⟨fun _ _ => -900000000, -500000000, 0⟩ ⟨minScore, minScore, minScore, minScore⟩
+    [0] [0] = .noTermination := by decide +kernel
+example : ¬ Model.PairwiseFill.Sane ⟨fun _ _ => -900000000, -500000000, 0⟩ [0] [0] 0 := by decide +kernel
 
 /-! ### Source-extracted obligations (DESIGN §8): `MIN_SCORE` and the traceback-cell constants of `pairwise/mod.rs`
 
